@@ -31,7 +31,7 @@ var (
 		" ", "\n\t", "\u00a0", "  \r\n ", "\u2003"}
 	jidPool  = []string{"", "example.net", "a@example.net", "b@example.com/res", "ü@example.org/r ☃", "c@example.net/a<&>'\"b"}
 	rawAddr  = []string{"", "example.net", "A@Example.NET/Res", "b@example.com/res", "@bad", "a@b@c", "ü@example.org/r", "x@example.com/"}
-	spaces   = []string{"", "jabber:client", "jabber:server", "urn:other"}
+	spaces   = []string{"", "jabber:client", "jabber:server", "urn:other", "jabber:component:accept", "jabber:component:connect"}
 	iqTypes  = []string{"get", "set", "result", "error"}
 	msgTypes = []string{"normal", "chat", "error", "groupchat", "headline"}
 	prTypes  = []string{"", "error", "probe", "subscribe", "subscribed", "unavailable", "unsubscribe", "unsubscribed"}
@@ -44,6 +44,41 @@ var (
 )
 
 func pick(r *common.Rand, l []string) string { return l[r.Intn(len(l))] }
+
+// sizes of the text fields: around the powers of two at which buffers and caps usually sit.
+var textSizes = []int{255, 256, 257, 1023, 1024, 1025, 4095, 4096, 4097, 16384, 16385, 65535, 65537, 70000}
+
+// sizedText returns a text of n bytes (n-2..n for the multi-byte flavours).  Flavour 0: ASCII;
+// 1: three-byte characters, so that a byte offset at a power of two falls inside a character;
+// 2: XML-special and two-byte characters mixed in.
+func sizedText(n, flavour int) string {
+	var unit string
+	switch flavour % 3 {
+	case 0:
+		unit = "x"
+	case 1:
+		unit = "\u20ac"
+	default:
+		unit = "a<&>\u00fc'\"]]>"
+	}
+	var b strings.Builder
+	for b.Len()+len(unit) <= n {
+		b.WriteString(unit)
+	}
+	for b.Len() < n && flavour%3 != 1 {
+		b.WriteByte('y')
+	}
+	return b.String()
+}
+
+// pickText: a text from the pool, or (1 in 12) a long one with a size next to a power of two.
+func pickText(r *common.Rand) string {
+	if r.Chance(1, 12) {
+		n := (1 << (8 + r.Intn(5))) + r.Intn(3) - 1
+		return sizedText(n, r.Intn(3))
+	}
+	return pick(r, textPool)
+}
 
 func mustJID(s string) jid.JID {
 	if s == "" {
@@ -63,6 +98,9 @@ func (x stz) fields() string {
 
 func genStz(r *common.Rand, kind string) stz {
 	x := stz{kind: kind, space: pick(r, spaces), id: pick(r, idPool), lang: pick(r, langPool)}
+	if r.Chance(1, 24) {
+		x.id = pickText(r)
+	}
 	x.to = mustJID(pick(r, jidPool)).String()
 	x.from = mustJID(pick(r, jidPool)).String()
 	switch kind {
@@ -335,6 +373,19 @@ func (c *ctxT) stanzaCase(x stz, payload []xml.Token, rnd *common.Rand) {
 			c.fail("error-roundtrip", "UnmarshalError", []string{r.Prop + " " + eline}, fmt.Sprintf("got %+v want %+v", fromErr(ue), canonErr(e)))
 		}
 	}
+	// --- the same reply after a trip through bytes: unqualified elements (the <error/> written by
+	// Error.Wrap) are read back in the content namespace of the stanza, whatever that is
+	if len(et) > 2 {
+		c.uerrLine(et[1:])
+		c.wireCase(x, e, et, []string{r.Prop + " " + eline})
+		// an error reply usually echoes the payload of the request in front of the error: white
+		// space and the (non-error) payload elements are skipped, the error is still found
+		if pl := nonEmptyChars(payload); len(pl) > 0 && !hasErrorElement(pl) {
+			echo := append([]xml.Token{et[0], xml.CharData("\n ")}, pl...)
+			echo = append(echo, et[1:]...)
+			c.wireCase(x, e, echo, []string{r.Prop + " " + wline, r.Prop + " " + eline})
+		}
+	}
 	// --- the two encodings: well-formed, decode to the same value, equal to the original
 	b1, err1 := xml.Marshal(v)
 	b2, err2 := encodeTokens(wrapOf(v, nil))
@@ -375,6 +426,120 @@ func (c *ctxT) stanzaCase(x stz, payload []xml.Token, rnd *common.Rand) {
 			}
 			c.fail("roundtrip", fmt.Sprintf("stanza/%s/%s/path%d", kind, f, i+1), lines, fmt.Sprintf("field %s: decoded %+v, original %+v (%q)", f, u, x, [][]byte{b1, b2}[i]))
 		}
+	}
+}
+
+// nonEmptyChars drops empty character data (the printer writes nothing for it).
+func nonEmptyChars(ts []xml.Token) []xml.Token {
+	var out []xml.Token
+	for _, t := range ts {
+		if cd, ok := t.(xml.CharData); ok && len(cd) == 0 {
+			continue
+		}
+		out = append(out, t)
+	}
+	return out
+}
+
+func hasErrorElement(ts []xml.Token) bool {
+	for _, t := range ts {
+		if s, ok := t.(xml.StartElement); ok && s.Name.Local == "error" {
+			return true
+		}
+	}
+	return false
+}
+
+// wireTrip prints the tokens with a plain encoder and parses the bytes again; namespace
+// declarations (which the decoder reports as attributes as well as in the names) are dropped.
+func wireTrip(ts []xml.Token) ([]xml.Token, []byte, error) {
+	b, err := encodeTokens(&sliceReader{t: ts})
+	if err != nil {
+		return nil, nil, err
+	}
+	wt, err := common.Tokenize(b)
+	if err != nil {
+		return nil, b, err
+	}
+	for i, t := range wt {
+		if st, ok := t.(xml.StartElement); ok {
+			var as []xml.Attr
+			for _, a := range st.Attr {
+				if !(a.Name.Space == "xmlns" || (a.Name.Space == "" && a.Name.Local == "xmlns")) {
+					as = append(as, a)
+				}
+			}
+			st.Attr = as
+			wt[i] = st
+		}
+	}
+	return wt, b, nil
+}
+
+// uerrLine: stanza.UnmarshalError on the tokens that follow the start element of a stanza.
+func (c *ctxT) uerrLine(after []xml.Token) (stanza.Error, string) {
+	r := c.r
+	table := "-"
+	for _, t := range after {
+		if s, ok := t.(xml.StartElement); ok && s.Name.Local == "error" {
+			table = parseTable(s)
+			break
+		}
+	}
+	line := fmt.Sprintf("uerr %s %s", common.EncToks(after), table)
+	v, err, pan := unmarshalError(after)
+	obs := ""
+	switch {
+	case pan != "":
+		obs = "PANIC"
+		c.fail("total", "UnmarshalError", []string{r.Prop + " " + line}, pan)
+	case err != nil && strings.Contains(err.Error(), "expected error payload"):
+		obs = "missing"
+	case err != nil:
+		obs = "bad"
+	default:
+		obs = "ok " + fromErr(v).fields()
+	}
+	r.Line(line, obs)
+	r.Case(line, err == nil, "uerr")
+	return v, obs
+}
+
+// wireCase: the error reply et of stanza x (error e) printed and parsed again: still a reply of
+// the right kind with the addresses swapped, and UnmarshalError returns the original error.
+func (c *ctxT) wireCase(x stz, e serr, et []xml.Token, lines []string) {
+	r := c.r
+	wline := "wire " + common.EncToks(et)
+	wt, b, err := wireTrip(et)
+	if err != nil {
+		r.Line(wline, "unbalanced")
+		c.fail("wellformed", "reply/"+x.kind, lines, fmt.Sprintf("%q: %v", b, err))
+		return
+	}
+	r.Line(wline, common.EncToks(common.SortedAttrs(wt)))
+	r.Case(wline, true, "wire")
+	if len(wt) < 2 {
+		c.fail("wellformed", "reply/"+x.kind, lines, fmt.Sprintf("%q: no element", b))
+		return
+	}
+	st, ok := wt[0].(xml.StartElement)
+	if !ok {
+		c.fail("wellformed", "reply/"+x.kind, lines, fmt.Sprintf("%q: no start element", b))
+		return
+	}
+	got, local, nerr, pan := newOf(x.kind, st)
+	if nerr != nil || pan != "" {
+		c.fail("swap", "error/wire", lines, fmt.Sprintf("the reply read back from %q does not parse: %v %s", b, nerr, pan))
+	} else if got.to != x.from || got.from != x.to || got.id != x.id || got.lang != x.lang || got.typ != "error" || got.space != x.space || local != x.kind {
+		c.fail("swap", "error/wire", lines, fmt.Sprintf("reply %+v read back from %q for %+v", got, b, x))
+	}
+	ue, obs := c.uerrLine(wt[1:])
+	switch {
+	case obs == "PANIC":
+	case !strings.HasPrefix(obs, "ok "):
+		c.fail("error-roundtrip", "UnmarshalError/wire", lines, fmt.Sprintf("the error of the reply read back from %q (content namespace %q) is not found or not decoded: %s", b, x.space, obs))
+	case !reflect.DeepEqual(canonErr(fromErr(ue)), canonErr(e)):
+		c.fail("error-roundtrip", "UnmarshalError/wire", lines, fmt.Sprintf("got %+v want %+v (%q)", fromErr(ue), canonErr(e), b))
 	}
 }
 
@@ -477,7 +642,7 @@ func genErr(r *common.Rand) serr {
 			continue
 		}
 		seen[l] = true
-		e.texts = append(e.texts, [2]string{l, pick(r, textPool)})
+		e.texts = append(e.texts, [2]string{l, pickText(r)})
 	}
 	sort.Slice(e.texts, func(i, j int) bool { return e.texts[i][0] < e.texts[j][0] })
 	return e
@@ -665,7 +830,7 @@ func genStErr(r *common.Rand) sterr {
 	}
 	n := r.Intn(3)
 	for i := 0; i < n; i++ {
-		e.texts = append(e.texts, [2]string{pick(r, langPool), pick(r, textPool)})
+		e.texts = append(e.texts, [2]string{pick(r, langPool), pickText(r)})
 	}
 	return e
 }
@@ -906,6 +1071,39 @@ func Run(r *common.Run) error {
 		}
 	}
 	r.Exhaustive = append(r.Exhaustive, "stanza error: every defined condition x every defined type")
+	r.Mark("case sizes")
+	for _, n := range textSizes {
+		if n > r.Pick(20000, 100000) {
+			continue
+		}
+		for fl := 0; fl < 3; fl++ {
+			t := sizedText(n, fl)
+			c.errCase(serr{typ: "modify", cond: "not-acceptable", texts: [][2]string{{"", t}, {"en", "en: " + t}}}, nil, rnd)
+			c.errCase(serr{by: "a@example.net", typ: "wait", cond: "gone", texts: [][2]string{{"de", t}}}, genPayload(rnd), rnd)
+			c.stErrCase(sterr{err: "conflict", texts: [][2]string{{"", t}, {"en", "en: " + t}}}, nil)
+			c.stErrCase(sterr{err: "see-other-host", content: t}, nil)
+			k := []string{"iq", "message", "presence"}[fl]
+			c.stanzaCase(stz{kind: k, id: t, lang: "en", typ: map[string]string{"iq": "set", "message": "chat", "presence": "probe"}[k]},
+				[]xml.Token{xml.StartElement{Name: xml.Name{Space: "urn:app", Local: "x"}}, xml.CharData(t), xml.EndElement{Name: xml.Name{Space: "urn:app", Local: "x"}}}, rnd)
+		}
+	}
+	r.Exhaustive = append(r.Exhaustive, "text sizes next to 2^8, 2^10, 2^12, 2^14 (thorough: 2^16, 70000) x ASCII / three-byte / mixed special characters: error texts, stream error texts and content, ids, payload character data")
+	r.Mark("case content namespaces")
+	for _, k := range []string{"iq", "message", "presence"} {
+		for _, sp := range spaces {
+			for mask := 0; mask < 4; mask++ {
+				x := stz{kind: k, space: sp, id: "n1", typ: map[string]string{"iq": "get", "message": "chat", "presence": "subscribe"}[k]}
+				if mask&1 != 0 {
+					x.to = "b@example.com/r \u2603"
+				}
+				if mask&2 != 0 {
+					x.from = "example.net"
+				}
+				c.stanzaCase(x, genPayload(rnd), rnd)
+			}
+		}
+	}
+	r.Exhaustive = append(r.Exhaustive, "error replies printed and parsed again: kinds x every content namespace of the pool (none, client, server, component accept/connect, foreign) x addresses set or not")
 	r.Mark("case several readers alive")
 	c.multiAll(rnd, r.Pick(1, 8))
 	r.Exhaustive = append(r.Exhaustive, "every function that returns a token reader x k = 2..4 readers made before any is read x every drain order")
@@ -1005,6 +1203,12 @@ func (c *ctxT) replayLine(l string, rnd *common.Rand) {
 			if st, ok := ts[0].(xml.StartElement); ok {
 				c.newTok(f[2], st)
 			}
+		}
+	case f[1] == "uerr" && len(f) == 4:
+		c.uerrLine(dec(f[2]))
+	case f[1] == "wire" && len(f) == 3:
+		if wt, _, err := wireTrip(dec(f[2])); err == nil && len(wt) > 1 {
+			c.uerrLine(wt[1:])
 		}
 	case f[1] == "sdec" && len(f) == 4:
 		c.sdecLine(dec(f[2]))
